@@ -16,8 +16,8 @@
      {accept, reject} (the response is written to the connection sink directly AND returned to the caller),
    * core/src/server/method_response.rs through Model/RespSize.v (C08: bounded writer, batch builder).
 
-   Message classification uses Wire.v's object readers.  serde's derived struct visitors also accept the SEQUENCE
-   form `[jsonrpc,id,method,params]` / `[jsonrpc,method,params]` / `[id]`; that was reachable for batch entries
+   Message classification uses Wire.v's map readers.  serde's derived struct visitors also accept the SEQUENCE
+   form `[jsonrpc,id,method,params]` / `[jsonrpc,method,params]` / `[id]` (Wire.v seq_request ...); that was reachable for batch entries
    until the repair "only JSON objects are batch entries" (fixes/C02.patch) put `starts_with('{')` in front of the
    three attempts.  The model is the REPAIRED loop; `classify_old` / `classify_entry_old` keep the former reading
    for the witness lemma C02_seq_refuted_old.
@@ -42,47 +42,8 @@ From JV Require Import Base.Bytes Base.Dec Base.Utf8 Json.Json Json.JsonSer Json
   Gen.SniffGen Gen.ErrorCodesGen.
 Local Open Scope N_scope.
 
-(* ---------- array texts as element spans (Vec<&RawValue>; also the sequence form of the derived structs) ---------- *)
-
-(* after '[' with at least one element: skip one value, expect ',' or ']'; spans have their leading whitespace dropped *)
-Fixpoint elems_loop (fuel : nat) (s : bytes) : option (list bytes * bytes) :=
-  match fuel with
-  | O => None
-  | S f =>
-    let s' := skip_ws s in
-    match skip_value (S (length s')) s' with
-    | Some (t, r) =>
-      match skip_ws r with
-      | c :: r1 =>
-        if beqb c x2c then
-          match elems_loop f r1 with Some (ts, r2) => Some (t :: ts, r2) | None => None end
-        else if beqb c x5d then Some ([t], r1)
-        else None
-      | [] => None
-      end
-    | None => None
-    end
-  end.
-
-(* ws* '[' elems ']' ws* eof *)
-Definition array_elems_fuel (fuel : nat) (s : bytes) : option (list bytes) :=
-  match skip_ws s with
-  | c :: s1 =>
-    if beqb c x5b then
-      match skip_ws s1 with
-      | c2 :: r =>
-        if beqb c2 x5d then match skip_ws r with [] => Some [] | _ :: _ => None end
-        else match elems_loop fuel s1 with
-             | Some (ts, r') => match skip_ws r' with [] => Some ts | _ :: _ => None end
-             | None => None
-             end
-      | [] => None
-      end
-    else None
-  | [] => None
-  end.
-
-Definition array_elems (s : bytes) : option (list bytes) := array_elems_fuel (S (length s)) s.
+(* ---------- array texts as element spans: Wire.v `array_elems` (Vec<&RawValue>; also what the sequence form of the
+   derived structs is read from) ---------- *)
 
 (* serde_json::from_slice::<Vec<&RawValue>>: every element span must be UTF-8 *)
 Definition batch_elems (s : bytes) : option (list bytes) :=
@@ -90,35 +51,6 @@ Definition batch_elems (s : bytes) : option (list bytes) :=
   | Some es => if forallb utf8_valid es then Some es else None
   | None => None
   end.
-
-(* ---------- the three request-side structs, object form (Wire.v) or sequence form ---------- *)
-
-Definition seq_request (els : list bytes) : option request :=
-  match els with
-  | [j; i; me; p] =>
-    if is_two j then
-      match parse_id i, as_str me, as_opt_raw p with
-      | Some i', Some me', Some p' => Some {| rq_id := i'; rq_method := me'; rq_params := p' |}
-      | _, _, _ => None
-      end
-    else None
-  | _ => None
-  end.
-
-Definition seq_notification (els : list bytes) : option (bytes * option bytes) :=
-  match els with
-  | [j; me; p] =>
-    if is_two j then
-      match as_str me, as_opt_raw p with
-      | Some me', Some p' => Some (me', p')
-      | _, _ => None
-      end
-    else None
-  | _ => None
-  end.
-
-Definition seq_invalid (els : list bytes) : option id :=
-  match els with [i] => parse_id i | _ => None end.
 
 Inductive msgclass := Call (r : request) | Notif | Invalid (i : id) | ParseErr.
 
@@ -139,30 +71,19 @@ Definition classify (t : bytes) : msgclass :=
   | None => ParseErr
   end.
 
-(* what serde does with ANY text (object or sequence form) -- the batch loop before the repair "fix: only JSON
-   objects are batch entries" applied this to every entry; kept for the historical witness C02_seq_refuted_old *)
-Definition text_request (t : bytes) : option request :=
-  match object_members t with
-  | Some m => as_request m
-  | None => match array_elems t with Some els => seq_request els | None => None end
-  end.
-Definition text_notification (t : bytes) : option (bytes * option bytes) :=
-  match object_members t with
-  | Some m => as_notification m
-  | None => match array_elems t with Some els => seq_notification els | None => None end
-  end.
-Definition text_invalid (t : bytes) : option id :=
-  match object_members t with
-  | Some m => as_invalid m
-  | None => match array_elems t with Some els => seq_invalid els | None => None end
-  end.
+(* what serde does with ANY text (map or sequence form: Wire.v parse_request / parse_notification / parse_invalid) --
+   the batch loop before the repair "fix: only JSON objects are batch entries" applied this to every entry; kept for
+   the historical witness C02_seq_refuted_old.  On the server NOW the sequence forms are unreachable: a message whose
+   first byte is '[' is a batch (sniff), a batch entry must start with '{' (classify_entry), and on '{' serde takes
+   visit_map -- checked on the running server (engine srvmsg): `["2.0",5,"echo",[1]]` as a message is a batch of four
+   invalid entries, `[["2.0",5,"echo",[1]]]` gets one -32600 with id null, over HTTP and WS alike. *)
 Definition classify_old (t : bytes) : msgclass :=
-  match text_request t with
+  match parse_request t with
   | Some r => Call r
   | None =>
-    match text_notification t with
+    match parse_notification t with
     | Some _ => Notif
-    | None => match text_invalid t with Some i => Invalid i | None => ParseErr end
+    | None => match parse_invalid t with Some i => Invalid i | None => ParseErr end
     end
   end.
 
